@@ -77,7 +77,7 @@ CONSTANTS
     SelfLoops,   \* enum: may a module name itself in module_depends()
     DepOrders,   \* enum: "asc" (declarations in name order) | "all" (every call order)
     WithMissing, \* enum: also cases with one dependency-free module whose .so does not exist
-    WithAnti,    \* enum: also module_antidepends() edges (outside the contract; exploration only)
+    WithAnti,    \* enum: also module_antidepends() edges
     Profiles,    \* enum: "full" | "all" | "good" | "goodsplit" | "goodpaired"  (hook profiles, see above)
     Bug          \* "none" | "D12" (module_dfs before commit 47cba46)
                  \* | "NoPostNoMark" | "NoDtorNoUnlink" | "NoCtorNoRestore" (regressions on the paths
